@@ -14,6 +14,7 @@ import (
 
 func main() {
 	r := vlib.Start("C19", "exploration")
+	r.ScaleQuick(3) // quick tier: 3x the case counts written at the sections (still well under a minute)
 	r.Rule("seeded materials (Lambert; Phong alpha 0..1e4 with/without diffuse term and flux correction; Henyey-Greenstein g in (-1,1) incl. |g|<1e-5 and 0.99999; refraction index 0.5..2.5 with/without Fresnel colour; nested JoinedMaterial mixtures with dyadic probabilities) x normals (random, axis aligned, tied components) x fixed directions (normal incidence, grazing 1e-3/1e-5, below the surface, generic) x {source sampling, destination sampling via package functions}; focus points (sphere radius 1e-2..1e2 at distance 1.0001..1000 radii, Phong alpha 0..1e4, fall-back paths); area lights (sphere, cylinder, mesh, joined, nested joined; sizes 1e-2..1e2, arbitrary placement/axis). A case is non-trivial when its sampler and density were both exercised; distinct by material/light description")
 	r.Assume("directions handed to the library are unit vectors up to rounding; JoinedMaterial probabilities are multiples of 1/64 with exact sum 1; colours are chosen so that reflectances sum to <= 1 per channel")
 	r.Assume("the harness knows where lobes and cut-offs should be (own mirror/Snell code); quadrature nodes adapt to those, the integrand is always the library's")
